@@ -6,7 +6,7 @@
  * establishes for every caller (payload capped at TLS_MAX_CIPHERTEXT_SIZE).  p2 bit 7: also patch the handshake length.
  *   sel & 7:
  *     0,7  every tls_record_get_* / tlcp_ / tls13_record_get_* parser on the record
- *     1  record printers: p1 % 5 = tls_record_print, tlcp_record_print, tls12_record_print, tls13_record_print,
+ *     1  record printers (p2 bit 6: the bytes are passed with their own, unpatched length field and recordlen = what there is): p1 % 5 = tls_record_print, tlcp_record_print, tls12_record_print, tls13_record_print,
  *        tls_encrypted_record_print; p2 & 7 selects the cipher suite put into the format word, p2 bit 3 the raw flag
  *     2  handshake-body printers on (data, datalen): p1 % N
  *     3  extension processors with their declared capacity: p1 % 12, maxlen = 8 + (p2 & 0x7f) * 4
@@ -478,6 +478,13 @@ int LLVMFuzzerTestOneInput(const uint8_t *data, size_t size)
 	case 3: raw = fz_dup(in.p, in.n); ext_processors(raw, in.n, p1, p2); break;
 	case 6: raw = fz_dup(in.p, in.n); helpers(raw, in.n, p1); break;
 	default:
+		if (sel == 1 && (p2 & 0x40)) {
+			/* the record printers take (record, recordlen) explicitly: give them the bytes as they are, length field unpatched */
+			reclen = in.n > 5 + TLS_MAX_CIPHERTEXT_SIZE ? 5 + TLS_MAX_CIPHERTEXT_SIZE : in.n;
+			rec = fz_dup(in.p, reclen);
+			record_printers(rec, reclen, p1, p2);
+			break;
+		}
 		rec = make_record(in.p, in.n, p2 & 0x80, &reclen);
 		if (!rec) break;
 		switch (sel) {
